@@ -824,11 +824,19 @@ func genCase(r *vlib.Rand, fn string, big bool) Case {
 		return Case{fn, []string{encList(l), I(n + r.Intn(6)), I(r.Range(-2, 6))}}
 	case "search":
 		c, rev := r.Range(1, 4), r.Intn(2)
-		l := randSorted(r, n, 30, c, rev)
-		if r.Chance(1, 8) {
-			l = randList(r, n, 0, 30) // unsorted: outside the contract, correspondence only
+		hi := 30
+		if r.Chance(1, 3) {
+			hi = r.Range(1, 4) // two to five symbols: long runs of ties
 		}
-		return Case{fn, []string{encList(l), I(c), I(rev), I(r.Range(-1, 32))}}
+		l := randSorted(r, n, hi, c, rev)
+		if r.Chance(1, 8) {
+			l = randList(r, n, 0, hi) // unsorted: outside the contract, correspondence only
+		}
+		item := r.Range(-1, hi+2)
+		if len(l) > 0 && r.Chance(1, 3) {
+			item = l[[]int{0, len(l) - 1, r.Intn(len(l))}[r.Intn(3)]] // an item of the slice: first, last, any
+		}
+		return Case{fn, []string{encList(l), I(c), I(rev), I(item)}}
 	case "lesscompare":
 		return Case{fn, []string{b2s(r.Bool()), b2s(r.Bool())}}
 	case "merge", "mergeslices":
@@ -975,6 +983,33 @@ func exhaustive(run *runner, maxLen int, deadline time.Time) bool {
 	for _, cl := range [][]int{{0, 1, 1, 1}, {0, 1, 1, 2}, {0, 1, 2, 1}, {0, 1, 2, 2}, {0, 1, 2, 3}} {
 		classes = append(classes, encList(cl))
 	}
+	// Search on tie-heavy sorted slices: every non-decreasing slice of length <= maxLen+4 over the symbols
+	// 1..3 (i.e. every arrangement of tie runs at the head, in the middle and at the tail) x every order
+	// (key = x/c: under c = 2 the symbols 2 and 3 tie, under c = 3 the symbols 1 and 2; both directions) x
+	// every item 0..4, judged against the exact lower bound
+	var sortedLists func(cur []int, from int)
+	sortedLists = func(cur []int, from int) {
+		for c := 1; c <= 3; c++ {
+			for rev := 0; rev <= 1; rev++ {
+				sl := clone(cur)
+				if rev == 1 {
+					for i, j := 0, len(sl)-1; i < j; i, j = i+1, j-1 {
+						sl[i], sl[j] = sl[j], sl[i]
+					}
+				}
+				for item := 0; item <= 4; item++ {
+					add(Case{"search", []string{encList(sl), I(c), I(rev), I(item)}})
+				}
+			}
+		}
+		if len(cur) == maxLen+4 {
+			return
+		}
+		for s := from; s <= 3; s++ {
+			sortedLists(append(cur, s), s)
+		}
+	}
+	sortedLists(nil, 1)
 	allLists(maxLen, 3, func(l []int) {
 		if time.Now().After(deadline) {
 			complete = false
@@ -1184,7 +1219,7 @@ func main() {
 		"equivalence-class tables, error chains incl. already wrapped / fmt.Errorf(%w) / non-comparable leaves; plus the corpus; "+
 		"non-trivial = the arguments hold at least 3 list elements / chain links (always for abs, clamp, chunk, shrink); distinct = different protocol line. "+
 		"Exhaustive scope: every slice of length <= L over 3 symbols x every index/count argument in [-2, len+2] x all 8 predicates / 5 class "+
-		"patterns / 6 orders, all families of <= 3 subsets of a 3-element universe, all maps over 3 keys, every int8, every error chain of depth <= 4 "+
+		"patterns / 6 orders, Search on every non-decreasing slice of length <= L+4 over 3 symbols x 6 orders x 5 items against the exact lower bound, all families of <= 3 subsets of a 3-element universe, all maps over 3 keys, every int8, every error chain of depth <= 4 "+
 		"(L = 4 quick, 7 thorough)")
 	m, err := vlib.StartModel(env.Driver, "helpers")
 	if err != nil {
